@@ -114,14 +114,27 @@ func genSpelling(r *rand.Rand, rel string) c08In {
 	}
 	in := c08In{Rel: rel, Prop: ds[0].Name, Decl: true, Expect: expect}
 	// !important: observable in the computed style through a later normal declaration that must lose
+	impOnlyB := -1
 	if r.Intn(4) == 0 {
 		k := r.Intn(len(ds))
-		ds[k].Important = true
 		other, _ := regenSame(r, ds[k].Name)
-		in.After = blockText([]declT{other})
+		if r.Intn(2) == 0 {
+			ds[k].Important = true
+			in.After = blockText([]declT{other})
+		} else {
+			// A: the plain declaration alone.  B: the same declaration, !important, followed by a later
+			// normal rule that it must beat.
+			impOnlyB = k
+			in.AfterB = blockText([]declT{other})
+			in.Decl = false
+		}
 	}
 	bv := blockVal(ds)
 	in.A = bv.canon()
+	if impOnlyB >= 0 {
+		ds[impOnlyB].Important = true
+		bv = blockVal(ds)
+	}
 	single := rel == "case" && r.Intn(2) == 0
 	for try := 0; try < 20; try++ {
 		var ch int
@@ -154,7 +167,7 @@ func genShorthandRel(r *rand.Rand) c08In {
 			pre = append(pre, declT{Name: l.Name, V: genLong(r, l.Name)})
 		}
 	}
-	important := r.Intn(8) == 0
+	important := r.Intn(6) == 0
 	var longs []declT
 	var expect []string
 	for _, l := range sc.Longs {
@@ -167,6 +180,16 @@ func genShorthandRel(r *rand.Rand) c08In {
 	a := append(append([]declT{}, pre...), longs...)
 	b := append(append([]declT{}, pre...), declT{Name: sc.Name, V: sc.V, Important: important})
 	in := c08In{Rel: "short", Prop: sc.Name, A: blockText(a), B: blockText(b), Expect: expect, SameNames: true}
+	if important {
+		// a later normal rule that both spellings must beat
+		var later []declT
+		for _, n := range expect {
+			if _, ok := longhands[n]; ok && r.Intn(2) == 0 {
+				later = append(later, declT{Name: n, V: genLong(r, n)})
+			}
+		}
+		in.After = blockText(later)
+	}
 	// universal keywords apply to every longhand
 	if r.Intn(25) == 0 {
 		k := kw(pick(r, "initial", "inherit"))
